@@ -230,7 +230,7 @@ class Program:
         if not out:
             # an internal helper that gained or lost the library prefix when it was moved between files (static <-> POLYSEED_PRIVATE)
             strip = lambda x: x[len('polyseed_'):] if x.startswith('polyseed_') else x
-            out = [f for n, f in sorted(self.defined.items()) if strip(base_name(n)) == strip(name)]
+            out = [f for n, f in sorted(self.defined.items()) if strip(base_name(n)) == strip(name) and base_name(n) not in PUBLIC_API]     # (never a public function standing in for an internal helper)
         return out
 
     def by_type(self, f, **vals):
@@ -327,11 +327,26 @@ class Program:
             v, off = strip_casts(f, v)
             if v['k'] == 'i' and f.insts[v['id']].op == 'alloca' and off == 0: return f.insts[v['id']]
             return None
+        def root_param(f, v, depth=0, seen=None):
+            # the parameter a pointer is derived from (through GEPs with any offset, casts and phis), or None
+            seen = seen if seen is not None else set()
+            while depth < 24:
+                if v['k'] == 'a': return v['n']
+                if v['k'] != 'i' or v['id'] in seen: return None
+                seen.add(v['id'])
+                i = f.insts[v['id']]
+                if i.op in ('getelementptr', 'bitcast'): v = i.ops[0]
+                elif i.op == 'phi':
+                    rs = {root_param(f, x, depth + 1, seen) for x, _ in i.d['incoming']} - {None}
+                    return rs.pop() if len(rs) == 1 else None
+                else: return None
+                depth += 1
+            return None
         if kind == 'lazy':
             for f in self.defined.values():
                 for i, t in self.calls(f):
                     if t == ('dep', 'u8_nfkd') and len(i.ops) >= 2:
-                        a0, a1 = param_of(f, i.ops[0]), param_of(f, i.ops[1])
+                        a0, a1 = root_param(f, i.ops[0]), root_param(f, i.ops[1])
                         if a0 is not None and a1 is not None and a0 != a1 and not any(r.fn is f for r in out):
                             out.append(Role(f, {'src': a0, 'out': a1}))
         elif kind == 'tokeniser':
@@ -356,6 +371,10 @@ class Program:
                             if al is B: bi = n
                             elif al.d.get('alloc_kind') == 'array' and '*]' in (al.d.get('alloc_ty') or ''): wi = n
                         if bi is not None and wi is not None:
+                            W = alloca_of(f, c2.ops[wi])
+                            others = [c3 for c3, t3 in calls if c3 is not c2 and c3 is not c1 and t3[0] in ('direct', 'indirect') and not (t3[0] == 'direct' and t3[1].startswith('llvm.'))
+                                      and any(alloca_of(f, a_) in (B, W) for a_ in c3.ops if a_['k'] in ('i', 'a'))]
+                            if not all(f.inst_dominates(c2, c3) for c3 in others): continue      # (a clean-up helper that also takes both is not the tokeniser)
                             r = seen.get(g.name)
                             if r is None:
                                 r = seen[g.name] = Role(g, {'buf': bi, 'words': wi}); out.append(r)
@@ -436,6 +455,11 @@ class Program:
             seen.add(x)
             st.extend(cg.get(x, ()))
         return seen
+
+
+PUBLIC_API = ('polyseed_inject', 'polyseed_enable_features', 'polyseed_get_num_langs', 'polyseed_get_lang', 'polyseed_get_lang_name', 'polyseed_get_lang_name_en',
+              'polyseed_create', 'polyseed_free', 'polyseed_get_birthday', 'polyseed_get_feature', 'polyseed_encode', 'polyseed_decode', 'polyseed_decode_explicit',
+              'polyseed_keygen', 'polyseed_store', 'polyseed_load', 'polyseed_crypt', 'polyseed_is_encrypted')
 
 
 class Role:
